@@ -61,6 +61,9 @@ type c17Case struct {
 	Staking bool    `json:"deploy_staking_at_genesis"`
 	WlGen   bool    `json:"whitelist_at_genesis"`
 	Path    []c17Op `json:"path"`
+	// Ghost, when set, is executed on a branch of the state reached by Path[:len-1] that is thrown away before the last
+	// operation of Path runs on that state (a failed transaction, a simulation, a check-state run).
+	Ghost *c17Op `json:"ghost,omitempty"`
 }
 
 func c17Setup(c c17Case) *c17World {
@@ -481,6 +484,58 @@ func c17Search(run *ev.Run, c c17Case, alpha []c17Op, maxDepth int, dl *ev.Deadl
 	}
 }
 
+// c17GhostPass: the outcome of an operation on a state must not depend on operations executed on branches of that state
+// which were discarded (baseapp discards the branch of a failed transaction, of every simulation and of the check state).
+// For the root state and every state one operation away: every accepted parameter update g is run on a throw-away
+// branch, then every operation o runs on the state itself and must behave exactly as it does without the ghost.
+func c17GhostPass(run *ev.Run, c c17Case, alpha []c17Op) {
+	cw := c17Setup(c)
+	type st struct {
+		ctx  sdk.Context
+		path []c17Op
+	}
+	states := []st{{cw.root, nil}}
+	for _, op := range alpha {
+		if op.Kind != "update-params" && op.Kind != "deploy-erc20" {
+			continue
+		}
+		if nctx, ok, _ := cw.exec(cw.root, op); ok {
+			states = append(states, st{nctx, []c17Op{op}})
+		}
+	}
+	type res struct {
+		ok  bool
+		key [32]byte
+	}
+	for _, s := range states {
+		ref := make([]res, len(alpha))
+		for i, o := range alpha {
+			nctx, ok, _ := cw.exec(s.ctx, o)
+			ref[i] = res{ok, CanonKey(cw.w, nctx)}
+		}
+		for gi := range alpha {
+			g := alpha[gi]
+			if g.Kind != "update-params" || !ref[gi].ok {
+				continue
+			}
+			for i, o := range alpha {
+				_, _, _ = cw.exec(s.ctx, g) // the ghost: executed and thrown away
+				nctx, ok, _ := cw.exec(s.ctx, o)
+				run.Count("transitions", 2)
+				run.Count("ghost_branch_pairs", 1)
+				if got := (res{ok, CanonKey(cw.w, nctx)}); got != ref[i] {
+					cc := c
+					cc.Path = append(append([]c17Op{}, s.path...), o)
+					gg := g
+					cc.Ghost = &gg
+					run.Fail(ev.Finding{Clause: "discarded-branch-does-not-influence-the-registry", Detail: fmt.Sprintf("after %v: %s is accepted=%v normally but accepted=%v (or leads to another state) once %s has been executed on a discarded branch of the same state", s.path, o, ref[i].ok, ok, g), Replay: cc})
+				}
+			}
+		}
+		// leave the process-level state as the last real operation of the search would
+	}
+}
+
 func runC17(replay string) int {
 	run := ev.NewRun("C17", "model_checking")
 	run.Assumptions = []string{
@@ -498,6 +553,19 @@ func runC17(replay string) int {
 			cw := c17Setup(c)
 			ctx := cw.root
 			var fs []ev.Finding
+			if c.Ghost != nil && len(c.Path) > 0 {
+				for _, op := range c.Path[:len(c.Path)-1] {
+					ctx, _, _ = cw.exec(ctx, op)
+				}
+				last := c.Path[len(c.Path)-1]
+				r1, ok1, _ := cw.exec(ctx, last)
+				_, _, _ = cw.exec(ctx, *c.Ghost)
+				r2, ok2, _ := cw.exec(ctx, last)
+				if ok1 != ok2 || CanonKey(cw.w, r1) != CanonKey(cw.w, r2) {
+					fs = append(fs, ev.Finding{Clause: "discarded-branch-does-not-influence-the-registry", Detail: fmt.Sprintf("%s: accepted=%v without the ghost, accepted=%v after ghost %s", last, ok1, ok2, *c.Ghost)})
+				}
+				return fs
+			}
 			for i, op := range c.Path {
 				nctx, ok, errMsg := cw.exec(ctx, op)
 				fmt.Printf("step %d %s -> ok=%v %s\n", i, op, ok, errMsg)
@@ -528,6 +596,7 @@ func runC17(replay string) int {
 			if i%n != shard {
 				continue
 			}
+			c17GhostPass(run, c, alpha)
 			c17Search(run, c, alpha, depth, dl)
 		}
 	})
@@ -537,6 +606,6 @@ func runC17(replay string) int {
 		run.Coverage["exhaustive"] = true
 	}
 	run.Coverage["max_depth"] = depth
-	run.Coverage["rule"] = fmt.Sprintf("BFS over branch states from 8 worlds (cpc genesis flags DeployErc20 × DeployStaking × whitelist at genesis) with a %d-op alphabet: UpdateParams (authority gov/other × whitelist × protocol version 0/1/2), DeployErc20Contract (authority whitelisted/other/gov × denom {wei, utwo, no-supply, empty, padded} × metadata at validation boundaries), DeployStakingContract, and the upgrade-handler keeper op SetCustomPrecompiledContractMeta (disable / enable / change type) to depth %d; registry invariants and the exposure oracle (view call to every registered address, its successor, the next dynamic address and fixed foreign addresses in deliver/check/recheck/EthCall modes and from the constructor of a creation message) evaluated in every distinct state", len(alpha), depth)
+	run.Coverage["rule"] = fmt.Sprintf("BFS over branch states from 8 worlds (cpc genesis flags DeployErc20 × DeployStaking × whitelist at genesis) with a %d-op alphabet: UpdateParams (authority gov/other × whitelist × protocol version 0/1/2), DeployErc20Contract (authority whitelisted/other/gov × denom {wei, utwo, no-supply, empty, padded} × metadata at validation boundaries), DeployStakingContract, and the upgrade-handler keeper op SetCustomPrecompiledContractMeta (disable / enable / change type) to depth %d; registry invariants and the exposure oracle (view call to every registered address, its successor, the next dynamic address and fixed foreign addresses in deliver/check/recheck/EthCall modes and from the constructor of a creation message) evaluated in every distinct state; ghost pass: in the root state and every state one operation away, every accepted parameter update is executed on a discarded branch and every operation of the alphabet must then behave exactly as without it", len(alpha), depth)
 	return run.Finish()
 }
